@@ -2,21 +2,27 @@
 import itertools, logging
 from ..core import Violation
 from .. import lifecycle_common as L
+from .. import timespec
 
 ID = 'C08'
-MODULES = ['OFModel.Lifecycle']
+MODULES = ['OFModel.Lifecycle', 'OFModel.TimeSpec']
+PROP_FILES = ['C08', 'TimeSpecLemmas', 'C08TimeSpec']
 RULE = ('scripted subclasses of the real Filter run by the real Filter.run(sig_stop=False) on the fake zmq network with one upstream and one '
         'downstream neighbour: one fault (raise | KeyboardInterrupt | exit() | exit(exc) incl. exit(reason, SystemExit(1)) | exit message clean/error | stop event) at every lifecycle point '
         '(constructor, init before/after Filter.init, MQ construction (3 ways), setup, recv/process/send of iteration 1..n, shutdown, '
         'send_exit_msg, fini) x 16 (prop_exit, obey_exit) pairs x loop_exc; every exit_after form (float, int, str secs, m:s, h:m:s, d:h:m:s, '
         '@iso, @time, @date time, @dateTtime) x deadline position with a scripted clock; random scripts with 2-3 faults; thorough: all pairs of '
-        'points.  non-trivial = at least one fault fired or the exit_after deadline ended the run')
+        'points.  non-trivial = at least one fault fired or the exit_after deadline ended the run.  Time specifications (harness/ofverif/timespec.py): the real parse_time_interval, '
+        'parse_date_and_or_time (non-ISO branch with the ISO parser switched off on every string; whole function on strings the library rejects; utc=False/True; fixed today by a '
+        'datetime subclass; fixed non-UTC local zone), timestr and Filter.init on a few thousand grammar-generated, malformed and mutated strings against the model OFModel/TimeSpec.lean '
+        '(accept/reject, milliseconds, the seven datetime fields, utcoffset); inputs outside the modelled domain are skipped and counted (coverage.timespec)')
 ASSUMPTIONS = ['sig_stop=False: signals are represented by the stop event being set at a scripted point',
                'exit messages are delivered (OOB delivery is assumed, the MQ protocol itself is C01-C07); at recv/send they travel the real zeromq.py OOB path over the fake network',
                'interrupts are KeyboardInterrupt raised at a scripted point and exit(reason, SystemExit(1)); what is announced to the neighbours for an interrupt is not asserted by the oracle (the code says \'clean\' because is_exc only tests for Exception: stated fact C08_interrupt_raises / C08_boundary_interrupt_announced_clean), it is compared with the model',
                'Filter.run is not called from inside an except block of the caller (sys.exc_info() would then report the caller\'s exception as in flight)',
                'graph-level propagation (C08_propagation) is proved on the model with each filter summarised by its relay function, which is itself defined by the run model; pipelines of several real filters are not executed by this check',
                'double faults are checked against the model and the structural clauses only; which of two exceptions wins is the stated Python finally semantics (boundary witnesses in OFProps/C08.lean)']
+ASSUMPTIONS += ['time specifications: the ISO branch (datetime.fromisoformat) and datetime.timestamp are library code, not modelled; float values are modelled for plain decimal literals with at most 3 significant fraction digits (others: accept/reject only); non-ASCII digits and blanks are outside the model; the real float arithmetic is compared with a relative tolerance of 1e-12, the microsecond may be one less than the model\'s']
 TRUSTED = ['fake zmq surface (harness/ofverif/fakezmq.py) stands in for libzmq: sockets still open and the ZMQContext reference count are read from it']
 
 INCL = {'all': {'clean', 'error'}, 'clean': {'clean'}, 'error': {'error'}, 'none': set()}
@@ -178,10 +184,13 @@ def cases_pairs(rng):
 def run(ctx):
     logging.disable(logging.CRITICAL)
     res, rng = ctx.result, ctx.rng
+    ts_cases = []
     if ctx.replay:
         cases = [ctx.replay['case']] if ctx.replay.get('case') else []
     else:
         cases = [c['case'] if 'case' in c else c for c in ctx.corpus]
+    ts_cases = [c for c in cases if 'timespec' in c]; cases = [c for c in cases if 'timespec' not in c]
+    if not ctx.replay:
         cases += cases_quick(rng, 4 if (ctx.thorough or ctx.escalate) else 1)
         if ctx.thorough: cases += cases_pairs(rng)
     impl = [L.run_impl(c) for c in cases]
@@ -207,3 +216,10 @@ def run(ctx):
     res.extra['outcomes'] = outcomes
     res.extra['runs_with_more_than_one_fault_fired'] = multi
     res.extra['policy_pairs'] = len({(c['prop'], c['obey'], c['loop_exc']) for c in cases})
+    # the time specifications of exit_after (parsers vs OFModel/TimeSpec.lean); drawn AFTER the lifecycle cases so that those are the same for a seed as before
+    for c in ts_cases: timespec.replay(ctx, res, c)
+    if not ctx.replay:
+        k = 3 if (ctx.thorough or ctx.escalate) else 1
+        timespec.run(ctx, res, 2500 * k, 2500 * k, 300 * k, 600 * k)
+        timespec.end_to_end(ctx, res, 60 * k)
+        timespec.spec_oracle(rng, res, 300 * k)
